@@ -14,6 +14,7 @@
 #include <vata/util/util.hh>
 
 #include <dirent.h>
+#include <unistd.h>
 #include <sys/stat.h>
 #include <algorithm>
 #include <fstream>
@@ -110,6 +111,22 @@ void op_roundtrip(const Step& s) {
 	}
 	Desc r2; if (!mdl::parse_timbuk_ref(text2, r2, &err) || !(r2 == D)) violation("C13.serialise-parse-roundtrip", "tx_roundtrip:serialise-ref", "the serialised text does not denote the description (reference reader): " + err + desc_diff(D, r2));
 	note_case(hash_str(text));
+	// the reader of the command-line tool: what it returns is what the file holds, whether or not the last line is terminated
+	if (!cli_dir().empty()) {
+		std::string t = text; if (hash_str(text) & 1) while (!t.empty() && t.back() == '\n') t.pop_back();
+		std::string path = cli_dir() + "/rt.timbuk"; unlink(path.c_str());
+		{ std::ofstream o(path, std::ios::binary | std::ios::trunc); o << t; }
+		api_begin(); api_site("tx_roundtrip:ReadFile");
+		std::string back = VATA::Util::ReadFile(path);
+		api_end(); count(c_oracle_evals); count(c_readfile_real);
+		// judged through the parser, as `vata load` does: the description read from the file is the description written
+		// (a reader that normalises line ends or terminates the last line would be fine; one that loses text is not)
+		if (back != t) {
+			bool ok = true; Desc gb;
+			try { VATA::Util::AutDescription ab = parser.ParseString(back); gb = from_lib(ab); } catch (const std::exception&) { ok = false; }
+			if (!ok || !(gb == D)) violation("C13.file-parse-equals-description", "tx_roundtrip:ReadFile", "the text Util::ReadFile returns for a file (" + std::to_string(back.size()) + " of " + std::to_string(t.size()) + " bytes) does not parse to the description in the file" + (ok ? ":" + desc_diff(D, gb) : " (rejected)"));
+		}
+	}
 	// per encoding: load, dump with the same state names, compare rule for rule; then once more (dump/load of an automaton)
 	for (int enc = 1; enc <= 4; ++enc) {
 		if (!((encmask >> enc) & 1)) continue;
